@@ -15,7 +15,7 @@ from typing import Any, Dict, List, Optional
 import z3
 
 from . import shadow, sym
-from .contract import CONTRACTS, Contract, Shape, Value, describe_case, make_value
+from .contract import CONTRACTS, Contract, Derived, Shape, Value, describe_case, make_value
 from .loops import call_by_name
 from .callutil import call_fn
 from .sym import Ctx, PathEnd, SymBase, SymBool, SymInt, SymReal, Unsupported, VcAbort, set_ctx
@@ -126,7 +126,24 @@ def to_src(v, model, c: Ctx) -> str:
 # ----------------------------------------------------------------------------------------------
 
 
+def _pairwise_int_defs(smt2: str, cap=9) -> str:
+    """Conservative extension for cvc5: name the pairwise differences and sums of the integer
+    constants, so that branch and bound can split on them (bounded even when the constants are
+    not).  Calibrated: turns 20 s time-outs into 10 ms on the floor/nearest-integer obligations."""
+    import itertools
+    import re
+
+    ints = re.findall(r"\(declare-fun (\S+) \(\) Int\)", smt2)
+    if not (2 <= len(ints) <= cap):
+        return smt2
+    extra = []
+    for n, (a, b) in enumerate(itertools.combinations(ints, 2)):
+        extra.append(f"(declare-fun pw_d{n} () Int)(assert (= pw_d{n} (- {a} {b})))(declare-fun pw_s{n} () Int)(assert (= pw_s{n} (+ {a} {b})))")
+    return smt2.replace("(check-sat)", "\n".join(extra) + "\n(check-sat)")
+
+
 def _cvc5_check(smt2: str, timeout_ms: int) -> str:
+    smt2 = _pairwise_int_defs(smt2)
     os.makedirs(WORKDIR, exist_ok=True)
     with tempfile.NamedTemporaryFile("w", suffix=".smt2", dir=WORKDIR, delete=False) as f:
         f.write("(set-logic ALL)\n" + smt2)
@@ -199,6 +216,10 @@ class Recorder:
                 smt2 = s.to_smt2()
             except Exception:  # pylint: disable=broad-except
                 smt2 = None
+            if smt2 is not None and os.environ.get("PYVC_DUMP"):
+                os.makedirs(WORKDIR, exist_ok=True)
+                with open(os.path.join(WORKDIR, f"unknown_{abs(hash(oid)) % 10000}_{len(self.instances)}.smt2"), "w") as fh:
+                    fh.write("; " + oid + "\n(set-logic ALL)\n" + smt2)
             if smt2 is not None and "lambda" not in smt2:
                 cr = _cvc5_check(smt2, CVC5_TIMEOUT_MS)
                 if cr == "unsat":
@@ -245,7 +266,6 @@ class Recorder:
                     model = s.model()
                 s.pop()
         s.pop()
-        s.set("timeout", 4000)
         inst.update(status=status, backend=backend, time=round(time.time() - t0, 4))
         if status == "discharged":
             self.by_backend[backend] += 1
@@ -493,7 +513,11 @@ def explore_case(C: Contract, case_idx: int, case: Dict[str, Shape], max_paths=N
             set_ctx(c)
             paths += 1
             try:
-                args = {k: make_value(s, k) for k, s in case.items()}
+                args = {k: make_value(s, k) for k, s in case.items() if not isinstance(s, Derived)}
+                for k, s_ in case.items():
+                    if isinstance(s_, Derived):
+                        args[k] = call_by_name(s_.fn, args)
+                args = {k: args[k] for k in case}
                 state["args"] = args
                 c.ghost["caller_contract"] = C
                 c.ghost["caller_args"] = args
